@@ -520,6 +520,12 @@ def build(choose, common=False, bp_base=True):
             t.init = 0
             if nl >= 2:
                 t.edges.append(Edge(("L", 0), ("L", 1), guard=base + 101))
+            if ti == 1 and choose(2, "T2.branchpoint"):
+                # a branchpoint in a template that is not the first one
+                t.bps.append(nid())
+                t.edges.append(Edge(("L", 0), ("B", 0), guard=base + 102))
+                t.edges.append(Edge(("B", 0), ("L", nl - 1), prob=7))
+                t.edges.append(Edge(("B", 0), ("L", 0), prob=8, assign=base + 403))
         m.tpls.append(t)
     # system section
     style = choose(3, "system.style")
